@@ -1002,7 +1002,7 @@ class SpecArray(object):
 
         fp, hs, gamma = xr.apply_ufunc(
             fit_jonswap_params,
-            self.oned(),
+            self.oned().chunk({attrs.FREQNAME: -1}),
             self.freq,
             self.fp(smooth=True),
             self.hs(),
@@ -1048,7 +1048,7 @@ class SpecArray(object):
 
         fp, hs, gw = xr.apply_ufunc(
             fit_gaussian_params,
-            self.oned(),
+            self.oned().chunk({attrs.FREQNAME: -1}),
             self.freq,
             self.fp(smooth=True),
             self.hs(),
